@@ -353,7 +353,7 @@ impl Prop for C13 {
                 let _ = pre;
             }
         }
-        for k in 0..tier.pick(400, 4000) {
+        for k in 0..tier.pick(4000, 40_000) {
             v.push(json!({"kind": "random", "seed": mix(seed ^ 0xC13 ^ k as u64), "len": 12}));
         }
         v
